@@ -37,6 +37,7 @@ def P(pid):
             ('RF-P accumulation loops cover every message', lambda c: rf_codec.rule_loop_coverage(c, fns=['bbsplus::signature::core_sign', 'bbsplus::signature::core_verify']), 2),
             ('RF-M generator / message pairing', rf_codec.rule_generator_pairing, 8),
             ('RF-W acceptance conditions test the combinations of inputs tested before', lambda c: rf_gatesets.rule_gate_sets(c, group='bbs', only=['::sign', '::verify']), 2),
+            ('RF-X no new cause of failure below the entry points', lambda c: rf_gatesets.rule_error_origins(c, only=['::sign', '::verify']), 2),
             ('RF-V acceptance regions (no new refusal of inputs accepted before)', lambda c: rf_accept.rule_acceptance_regions(c, only=['::sign', '::verify', 'core_sign', 'core_verify', 'calculate_domain', 'hash_to_scalar', 'key_gen']), 3),
         ]
         meta['explanation'] = ('Structural clauses of signature completeness decided on the MIR of the working tree: None==empty '
@@ -121,6 +122,7 @@ def P(pid):
             ('RF-L index lists are validated against their own message list', rf_frame.rule_index_lists_validated, 5),
             ('RF-V acceptance regions (no new refusal of inputs accepted before)', lambda c: rf_accept.rule_acceptance_regions(c, only=['::proof_gen', '::proof_verify', 'core_proof_gen', 'core_proof_verify', 'proof_init', 'proof_verify_init', 'calculate_domain']), 3),
             ('RF-W acceptance conditions test the combinations of inputs tested before', lambda c: rf_gatesets.rule_gate_sets(c, group='bbs', only=['::proof_gen', '::proof_verify']), 2),
+            ('RF-X no new cause of failure below the entry points', lambda c: rf_gatesets.rule_error_origins(c, only=['::proof_gen', '::proof_verify']), 2),
         ]
         meta['explanation'] = ('Decides completely: None==empty for every optional input of proof_gen / proof_verify; proof length = 272 + 32 * U from the '
                                'writer layout and the one-push-per-undisclosed-message loop; reader offsets equal writer offsets. Decides as necessary conditions '
@@ -143,6 +145,7 @@ def P(pid):
             ('RF-L index lists are validated against their own message list', rf_frame.rule_index_lists_validated, 5),
             ('RF-V acceptance regions (no new refusal of inputs accepted before)', lambda c: rf_accept.rule_acceptance_regions(c, only=['commit', 'deserialize_and_validate_commit', 'blind_sign', 'verify_blind_sign', 'blind_proof_gen', 'blind_proof_verify', 'core_commit', 'core_commit_verify', 'prepare_parameters', 'calculate_blind_challenge', 'core_proof_gen', 'core_proof_verify', 'proof_verify_init']), 3),
             ('RF-W acceptance conditions test the combinations of inputs tested before', lambda c: rf_gatesets.rule_gate_sets(c, group='bbs', only=['commit', 'blind_sign', 'verify_blind_sign', 'blind_proof_gen', 'blind_proof_verify']), 2),
+            ('RF-X no new cause of failure below the entry points', lambda c: rf_gatesets.rule_error_origins(c, only=['commit', 'blind_sign', 'verify_blind_sign', 'blind_proof_gen', 'blind_proof_verify']), 2),
         ]
         meta['explanation'] = ('Decides completely: None==empty for the optional octet/list inputs of the five blind entry points. Decides as necessary conditions: '
                                'all blind entry points reach only API_ID_BLIND (+ BLIND_ for blind generators) at every role, the commit randomness request M + 2 '
@@ -211,6 +214,7 @@ def P(pid):
             ('RF-D success values are computed from the inputs they bind', lambda c: rf_frame.rule_result_binding(c, only=['update_signature','::sign']), 9),
             ('RF-V acceptance regions (no new refusal of inputs accepted before)', lambda c: rf_accept.rule_acceptance_regions(c, only=['update_signature', 'core_sign', 'core_verify']), 3),
             ('RF-W acceptance conditions test the combinations of inputs tested before', lambda c: rf_gatesets.rule_gate_sets(c, group='bbs', only=['update_signature']), 2),
+            ('RF-X no new cause of failure below the entry points', lambda c: rf_gatesets.rule_error_origins(c, only=['update_signature']), 2),
         ]
         meta['explanation'] = ('Decides completely: a signature is returned only if update_index < n (boundary proven both ways) and the generator '
                                'selected is values[update_index + 1] as in sign/verify; update_signature reaches the same interface constants as sign; '
@@ -309,7 +313,7 @@ ALL = ['C%02d' % i for i in range(1, 20)]
 # positive controls (thorough tier): patches that break the property; the property's own quick check must report each of them.
 # unfix-* = reverse of a `fix:` commit of /repo; seeded/* = changes written by independent sub-agents (see DESIGN.md section 6).
 CONTROLS = {
-    'C01': ['seeded/C01-a/patch.diff', 'seeded/C01-b/patch.diff'],
+    'C01': ['seeded/C01-a/patch.diff', 'seeded/C01-b/patch.diff', 'seeded/C01-c/patch.diff'],
     'C02': ['seeded/C02-a/patch.diff', 'seeded/C04-a/patch.diff', 'seeded/C02-b/patch.diff', 'seeded/C02-c/patch.diff'],
     'C03': ['seeded/C03-a/patch.diff', 'seeded/C09-a/patch.diff', 'seeded/C03-b/patch.diff', 'seeded/C03-c/patch.diff'],
     'C04': ['selftest/mutants/unfix-4e31b69.patch', 'seeded/C04-a/patch.diff', 'seeded/C04-b/patch.diff', 'seeded/C04-c/patch.diff'],
